@@ -203,3 +203,23 @@ pub fn params_in_budget(ver: u8, p: &[u8]) -> bool {
         }
     }
 }
+
+/// Dynamic dispatch over the six backends (for cross-backend checks).
+pub trait Visitor {
+    type Out;
+    fn visit<V: Full>(self) -> Self::Out;
+}
+pub fn dispatch<T: Visitor>(idx: usize, v: T) -> T::Out {
+    match idx {
+        0 => v.visit::<V1>(),
+        1 => v.visit::<V2>(),
+        2 => v.visit::<V3>(),
+        3 => v.visit::<V3L>(),
+        4 => v.visit::<V4>(),
+        5 => v.visit::<V4S>(),
+        _ => panic!("no such backend"),
+    }
+}
+pub fn ver_of(idx: usize) -> u8 {
+    [1, 2, 3, 3, 4, 4][idx]
+}
